@@ -34,8 +34,16 @@ def make_pair(state, decimals=(6, 18)):
     from mc.worlds.kit import Ctx
 
     state, _, prep = state.partition("@")  # "@2min": minute rows resampled by the market; "@gap": a minute without a row, filled by the loader's rule
-    qt = TokenInfo("USDC", decimals[0])
-    bt = TokenInfo("WETH", decimals[1])
+    if prep == "addr":
+        # tokens that carry their contract addresses (as they do when data is loaded for lending markets): the pool's token order is what the pool SAYS it is -
+        # the same pair on another chain has the addresses the other way round
+        qt = TokenInfo("USDC", decimals[0], "0xA0b86991c6218b36c1d19D4a2e9Eb0cE3606eB48")
+        bt = TokenInfo("WETH", decimals[1], "0xC02aaA39b223FE8D0A0e5C4F27eAD9083C756Cc2")
+        if list(STATES).index(state) % 2:
+            qt.address, bt.address = bt.address, qt.address
+    else:
+        qt = TokenInfo("USDC", decimals[0])
+        bt = TokenInfo("WETH", decimals[1])
     shift = 0 if decimals == (6, 18) else int(round((decimals[1] - decimals[0] - 12) * 23025.85))  # keep the price scale: ticks move with the decimals gap
     t0 = STATES[state] + shift
     closes = [t0, t0 + 7, t0 - 260, t0 + 3]
@@ -161,6 +169,18 @@ def alphabet():
             ret = mk.add_liquidity(min(p1, p2), max(p1, p2), bal(c, mk.base_token) / 4, bal(c, mk.quote_token) / 4)
             return (ret[1], ret[2], ret[3])
         ops[f"add_by_price[{r}]"] = (add_price, EXACT, False)
+        if r == "in":
+            for nm, w in (("narrow", Decimal("0.0002")), ("one-spacing", Decimal("0.0007"))):
+                # a price range narrower than (about as wide as) the pool's tick spacing around the current price: whatever the market makes of it - a refusal,
+                # a range of one spacing - it makes the same of it in the mirror (the position it opens is mirrored, width and centre compared)
+                def add_narrow(c, w=w):
+                    mk = m(c)
+                    p = mk.market_status.data.price
+                    ret = mk.add_liquidity(p * (1 - w), p * (1 + w), bal(c, mk.base_token) / 5, bal(c, mk.quote_token) / 5)
+                    pos = ret[0]
+                    centre = (pos.upper_tick + pos.lower_tick) if c.orient == "q0" else -(pos.upper_tick + pos.lower_tick)
+                    return (ret[1], ret[2], ret[3], pos.upper_tick - pos.lower_tick, centre)
+                ops[f"add_by_price[{nm}]"] = (add_narrow, EXACT, True)
         for frac, collect in (("half", False), ("all", True), ("all", False)):
             def rem(c, r=r, frac=frac, collect=collect):
                 mk = m(c)
@@ -379,7 +399,7 @@ def main(run: Run):
     decs = [(6, 18), (8, 18)] if run.thorough else [(6, 18)]
     states = list(STATES) if run.thorough else ["below", "just-below", "inside", "inside-off-grid", "just-above", "above"]
     # the same pools fed through the repository's data preparation: minute rows resampled to longer bars, and a minute without a row filled by the loader's rules
-    states += ["inside@2min", "just-below@5min", "inside@gap"] + (["just-above@2min", "below@gap", "inside-off-grid@5min"] if run.thorough else [])
+    states += ["inside@2min", "just-below@5min", "inside@gap", "inside@addr"] + (["just-above@2min", "below@gap", "inside-off-grid@5min"] if run.thorough else [])
     jobs = run.rotate([(run.seed, s, d, depth, max_dev, (k, 4)) for s in states for d in decs for k in range(4)])
     for r in pmap(work, jobs):
         run.merge(r)
